@@ -10,6 +10,7 @@ import (
 	"verifharness/explore"
 
 	"github.com/cinar/indicator/v2/asset"
+	"github.com/cinar/indicator/v2/helper"
 	"github.com/cinar/indicator/v2/strategy"
 	"github.com/cinar/indicator/v2/verifmc/mc"
 )
@@ -249,10 +250,147 @@ func stratPipeUnit(c *core.Ctx, e *cat.Strat, cfg []float64) {
 	c.Notes[label] = map[string]any{"scenarios": st.scen, "dpor_traces": st.traces, "delay_bounded_executions": st.s2, "warmup": w}
 }
 
+// helperComp is a small network of stream helpers whose termination follows from the
+// mechanism the property is anchored in: "Operate/Operate3/First drain the longer input
+// after the shorter ends" - a stage that ends its output early closes it THEN and keeps
+// consuming its input, so that a sibling branch fed by the same Duplicate is never starved.
+type helperComp struct {
+	name  string
+	build func(in <-chan float64, k, k2 int) <-chan float64
+	model func(in []float64, k, k2 int) []float64
+}
+
+func firstN(xs []float64, k int) []float64 {
+	if k > len(xs) {
+		k = len(xs)
+	}
+	if k < 0 {
+		k = 0
+	}
+	return xs[:k]
+}
+
+var helperComps = []helperComp{
+	{"Add(First(d0,k),d1) over Duplicate(2)", func(in <-chan float64, k, k2 int) <-chan float64 {
+		d := helper.Duplicate(in, 2)
+		return helper.Add(helper.First(d[0], k), d[1])
+	}, func(in []float64, k, k2 int) []float64 {
+		var o []float64
+		for _, v := range firstN(in, k) {
+			o = append(o, v+v)
+		}
+		return o
+	}},
+	{"Add(d0,First(d1,k)) over Duplicate(2)", func(in <-chan float64, k, k2 int) <-chan float64 {
+		d := helper.Duplicate(in, 2)
+		return helper.Add(d[0], helper.First(d[1], k))
+	}, func(in []float64, k, k2 int) []float64 {
+		var o []float64
+		for _, v := range firstN(in, k) {
+			o = append(o, v+v)
+		}
+		return o
+	}},
+	{"Add(First(d0,k),First(d1,k2)) over Duplicate(2)", func(in <-chan float64, k, k2 int) <-chan float64 {
+		d := helper.Duplicate(in, 2)
+		return helper.Add(helper.First(d[0], k), helper.First(d[1], k2))
+	}, func(in []float64, k, k2 int) []float64 {
+		var o []float64
+		for _, v := range firstN(in, min(k, k2)) {
+			o = append(o, v+v)
+		}
+		return o
+	}},
+	{"Operate3(First(d0,k),d1,First(d2,k2)) over Duplicate(3)", func(in <-chan float64, k, k2 int) <-chan float64 {
+		d := helper.Duplicate(in, 3)
+		return helper.Operate3(helper.First(d[0], k), d[1], helper.First(d[2], k2), func(a, b, c float64) float64 { return a + 2*b + 4*c })
+	}, func(in []float64, k, k2 int) []float64 {
+		var o []float64
+		for _, v := range firstN(in, min(k, k2)) {
+			o = append(o, 7*v)
+		}
+		return o
+	}},
+	{"Add(Add(First(d0,k),d1),d2) over Duplicate(3)", func(in <-chan float64, k, k2 int) <-chan float64 {
+		d := helper.Duplicate(in, 3)
+		return helper.Add(helper.Add(helper.First(d[0], k), d[1]), d[2])
+	}, func(in []float64, k, k2 int) []float64 {
+		var o []float64
+		for _, v := range firstN(in, k) {
+			o = append(o, 3*v)
+		}
+		return o
+	}},
+	{"First(First(in,k),k2)", func(in <-chan float64, k, k2 int) <-chan float64 {
+		return helper.First(helper.First(in, k), k2)
+	}, func(in []float64, k, k2 int) []float64 {
+		return append([]float64(nil), firstN(firstN(in, k), k2)...)
+	}},
+	{"Add(First(Map(d0),k),Map(d1)) over Duplicate(2)", func(in <-chan float64, k, k2 int) <-chan float64 {
+		d := helper.Duplicate(in, 2)
+		id := func(v float64) float64 { return v }
+		return helper.Add(helper.First(helper.Map(d[0], id), k), helper.Map(d[1], id))
+	}, func(in []float64, k, k2 int) []float64 {
+		var o []float64
+		for _, v := range firstN(in, k) {
+			o = append(o, v+v)
+		}
+		return o
+	}},
+}
+
+func helperCompUnit(c *core.Ctx, hc helperComp) {
+	thoroughTier = c.Thorough()
+	maxN := 5
+	if c.Thorough() {
+		maxN = 8
+	}
+	var st c03stats
+	idx := 0
+	for n := 0; n <= maxN; n++ {
+		in := make([]float64, n)
+		for i := range in {
+			in[i] = float64(i + 1)
+		}
+		for k := 0; k <= n+1; k++ {
+			for _, k2 := range []int{0, k, k + 1, n + 1} {
+				for _, capacity := range []int{0, 1, 2} {
+					k, k2, capacity := k, k2, capacity
+					want := hc.model(in, k, k2)
+					sc := func() explore.Exec {
+						var sink *Sink[float64]
+						body := func() { sink = Collect(hc.build(Feed(in, capacity), k, k2)) }
+						observe := func(res *mc.Result) (string, string) {
+							v := quiescenceVerdict(res, func() (int, int) {
+								if sink.Closed {
+									return 0, 1
+								}
+								return 1, 1
+							})
+							if v == "" && !res.Cut && fmtF(sink.Vals) != fmtF(want) {
+								v = fmt.Sprintf("output %s, the slice model gives %s", fmtF(sink.Vals), fmtF(want))
+							}
+							return fmtF(sink.Vals) + fmt.Sprint(sink.Closed), v
+						}
+						return explore.Exec{Body: body, Observe: observe}
+					}
+					idx++
+					cs := map[string]any{"network": hc.name, "input": in, "k": k, "k2": k2, "capacity": capacity}
+					exploreClean(c, fmt.Sprintf("helper network %s, input length %d, k=%d k2=%d, input capacity %d", hc.name, n, k, k2, capacity), sc, idx, &st, cs)
+				}
+			}
+		}
+	}
+	c.States += st.scen
+	c.Evaluations += st.scen
+	c.Nontrivial += st.scen
+	c.Notes["helpers: "+hc.name] = map[string]any{"scenarios": st.scen, "dpor_traces": st.traces, "delay_bounded_executions": st.s2, "max_input_length": maxN}
+}
+
 func init() {
 	core.Register(&core.Check{
 		ID:   "C03",
-		Rule: "for every catalogued indicator and strategy (base, decorated, compound) x every configuration of the deep period box x input lengths {0,1,w-1..w+3,2w+2} (all of 0..2w+2 in the thorough tier) x input channel capacity {0,1,3} x unequal input lengths for multi-input indicators (each input in turn up to 6 shorter / 2 longer): the network producers -> pipeline -> independent readers is explored by DPOR with sleep sets over ALL Mazurkiewicz traces (a clean Kahn network has exactly one, which DPOR establishes dynamically by finding no conflicting co-enabled operations), plus an auxiliary delay-bounded (d<=1) search without independence assumptions, cut at 600 executions, on every 64th scenario (16th in the thorough tier); oracle at quiescence: no goroutine left, every output closed, no buffered leftovers, no panic, identical outputs on every schedule, no happens-before race; states = scenarios, transitions = scheduler events",
+		Rule: "for every catalogued indicator and strategy (base, decorated, compound) x every configuration of the deep period box x input lengths {0,1,w-1..w+3,2w+2} (all of 0..2w+2 in the thorough tier) x input channel capacity {0,1,3} x unequal input lengths for multi-input indicators (each input in turn up to 6 shorter / 2 longer): the network producers -> pipeline -> independent readers is explored by DPOR with sleep sets over ALL Mazurkiewicz traces (a clean Kahn network has exactly one, which DPOR establishes dynamically by finding no conflicting co-enabled operations), plus an auxiliary delay-bounded (d<=1) search without independence assumptions, cut at 600 executions, on every 64th scenario (16th in the thorough tier); oracle at quiescence: no goroutine left, every output closed, no buffered leftovers, no panic, identical outputs on every schedule, no happens-before race; in addition seven networks of stream helpers whose termination follows from the anchored mechanism 'Operate/Operate3/First drain the longer input after the shorter ends' (First/Add/Operate3/Map over the branches of one Duplicate, all input lengths to 5 (8), all k, capacities {0,1,2}) with the same oracle plus equality with the slice model; states = scenarios, transitions = scheduler events",
 		Assume: []string{"input values are a fixed irregular series (termination depends on lengths, not values)", "the scheduler models Go's channel/WaitGroup/Mutex semantics at operation granularity; the number of OS threads is irrelevant for a data-race-free program and race freedom is checked on every explored execution"},
 		Units: func(tier string) []core.Unit {
 			var us []core.Unit
@@ -274,6 +412,10 @@ func init() {
 			for _, e := range wrapperEntries() {
 				e := e
 				us = append(us, core.Unit{Key: e.Name, Cost: 3 * (3 + e.Warm(nil)), Run: func(c *core.Ctx) { stratPipeUnit(c, e, []float64{}) }})
+			}
+			for _, hc := range helperComps {
+				hc := hc
+				us = append(us, core.Unit{Key: "helpers: " + hc.name, Cost: 8, Run: func(c *core.Ctx) { helperCompUnit(c, hc) }})
 			}
 			return us
 		},
